@@ -1024,8 +1024,8 @@ class PGPMessage(Armorable, PGPObject):
                 yield ops
 
             yield self._message
-            if self._mdc is not None:  # pragma: no cover
-                yield self._mdc
+            # a modification detection code packet read from a decrypted container is not part of the message
+            # (RFC 4880 5.14: it appears only inside the encrypted data, where encryption appends a new one)
 
             for sig in self._signatures:
                 yield sig
